@@ -10,7 +10,7 @@ EXPLANATION = (
     "AsyncRetrying(stop=stop_never, wait=wait_exponential(multiplier>0, 0<max<inf), retry on Exception) with _connect_impl awaited inside "
     "`with attempt` => delays min(max, m*2^(n-1)): growing, capped, never zero. [ONE-RX] the receive loop is started at one site, under the "
     "connect lock, stored, and dominated by cancellation of a running predecessor. [YIELD] every cycle of the two background loops passes an "
-    "await that cannot complete without suspending infinitely often (reader op under EOF discipline, queue.get, sleep(>0)). UNDECIDED: actual "
+    "await that cannot complete without suspending infinitely often (reader op under EOF discipline, queue.get, sleep(>0)). SCAN-PROGRESS and the serial EOF clause are decided on the interpreted serial scanner (every call returns within the step budget; a read of b'' raises); ONE-RX's cancellation clause is a forward must-analysis with branch refinement (any spelling of the guarding test, local aliases). UNDECIDED: actual "
     "timing, peer behaviour, tenacity internals, schedules in which a slow status callback holds the connect lock while the old receive path faults."
 )
 ASSUMPTIONS = ["CPython ast parser", "asyncio.StreamReader: readexactly/readuntil raise at EOF, read/readline return b''", "tenacity 9.1 wait_exponential formula",
